@@ -12,6 +12,10 @@ CORRESPONDENCE recording wrappers around emd.sift.get_next_imf / interp_envelope
                every run is compared exactly with the model's calls (hashes of Options.calls_h under vm_compute; the
                records themselves, Options.calls_c, are fetched for a report).  Ensembles take the sign-flipped second
                sift when nprocesses > 1; mask_sift chooses its first mask by zero crossings / instantaneous frequency.
+               Every run is a SEQUENCE on configuration objects: a decoy SiftConfig of the same variant is configured with
+               different values for every option, then the configuration under test, then two more decoys (same and another
+               variant), and only then is the configuration under test run; np.pad dictionaries are put into a SiftConfig
+               both whole and entry by entry (three-level key paths).  Configuring a decoy must change nothing.
 ORACLE         on the implementation alone: every recorded call of the stage an option configures received the supplied
                value, in the calling process and in every worker; and the output equals a decomposition assembled by
                hand from get_next_imf with the same options (classic, masked, both second-layer variants).
@@ -359,49 +363,111 @@ def read_trace(d, parent_pid):
 
 
 # --------------------------------------------------------------------------- one call of a variant by a route
-def apply_config(S, name, base, u):
+def set_option(cfg, b, k, v, style):
+    """One option into a SiftConfig.  style 'assign': cfg['bundle/key'] = value.  style 'path': a dictionary-valued option
+    (the np.pad dictionaries) is edited in place through three-level key paths - every key set, keys it should not have
+    deleted - which is how a user changes one entry of the dictionary get_config put there."""
+    cur = cfg[b].get(k) if isinstance(cfg[b], dict) else None
+    if style == 'path' and isinstance(v, dict) and isinstance(cur, dict):
+        for kk in list(cur):
+            if kk not in v:
+                del cfg['%s/%s/%s' % (b, k, kk)]
+        for kk, vv in v.items():
+            cfg['%s/%s/%s' % (b, k, kk)] = vv
+    else:
+        cfg[b + '/' + k] = v
+
+
+def apply_config(S, name, base, u, style='assign'):
     cfg = S.get_config(name)
     for k, v in base.items():
         cfg[k] = v
     for b in BUNDLES:
         for k, v in (u[b] or {}).items():
-            cfg[b + '/' + k] = v
+            set_option(cfg, b, k, v, style)
     return cfg
+
+
+# values for the decoy configurations: valid, different from every default, and (first candidate that is) different from
+# what the configuration under test was given
+DECOY = {
+    'imf_opts': {'stop_method': ['fixed', 'rilling'], 'env_step_size': [0.75], 'sd_thresh': [0.3], 'rilling_thresh': [(0.2, 0.6, 0.2)],
+                 'max_iters': [7, 9], 'energy_thresh': [30.0]},
+    'envelope_opts': {'interp_method': ['pchip', 'mono_pchip']},
+    'extrema_opts': {'pad_width': [4], 'parabolic_extrema': [False, True],
+                     'loc_pad_opts': [{'mode': 'linear_ramp', 'end_values': (-2 * N, 3 * N)}],
+                     'mag_pad_opts': [{'mode': 'maximum', 'stat_length': 3}]},
+}
+
+
+def decoy_options(u):
+    """{bundle: {key: value}} for a decoy, given the (built) options of the configuration under test"""
+    out = {}
+    for b in BUNDLES:
+        out[b] = {}
+        for k, cands in DECOY[b].items():
+            mine = (u[b] or {}).get(k, None)
+            out[b][k] = next(c for c in cands if canon(c) != canon(mine))
+    return out
+
+
+def make_decoy(S, name, u):
+    """Another SiftConfig, configured with different values for every option (dictionary options edited in place).  It is
+    never run: configuring it must not change what a different configuration object does."""
+    cfg = S.get_config(name)
+    for b, kv in decoy_options(u).items():
+        for k, v in kv.items():
+            set_option(cfg, b, k, v, 'path')
+    return cfg
+
+
+def other_variant(name):
+    return 'ensemble_sift' if name != 'ensemble_sift' else 'sift'
 
 
 def given(u):
     return {b: u[b] for b in BUNDLES if u[b] is not None}
 
 
-def call_variant(S, variant, route, nproc, u, sig):
-    """The documented ways of handing options to a variant."""
+def call_variant(S, variant, route, nproc, u, sig, style='assign', decoys=True):
+    """The documented ways of handing options to a variant.  Sequence: a decoy configuration of the same variant is made
+    and configured, then the configuration under test, then a second decoy of the same variant and one of another variant
+    (all with different values for every option); only then is the configuration under test run."""
     base = base_kwargs(variant, nproc, sig)
-    if variant in ('sift', 'ensemble_sift', 'complete_ensemble_sift', 'mask_sift'):
-        x = signal(sig)
-        f = getattr(S, variant)
+    name = {'sift_second_layer': 'sift', 'mask_sift_second_layer': 'mask_sift'}.get(variant, variant)
+    keep = [make_decoy(S, name, u)] if decoys else []
+    cfg = apply_config(S, name, base, u, style) if route != 'keyword' else None
+    if decoys:
+        keep += [make_decoy(S, name, u), make_decoy(S, other_variant(name), u)]
+    try:
+        if variant in ('sift', 'ensemble_sift', 'complete_ensemble_sift', 'mask_sift'):
+            x = signal(sig)
+            f = getattr(S, variant)
+            if route == 'keyword':
+                r = f(x, **base, **given(u))
+            elif route == 'config':
+                r = f(x, **cfg)
+            else:
+                r = cfg.get_func()(x)
+            return r[0] if isinstance(r, tuple) else r
+        IA = first_layer(sig)
+        if variant == 'sift_second_layer':
+            if route == 'keyword':
+                return S.sift_second_layer(IA, sift_args=dict(base, **given(u)))
+            if route == 'config':
+                return S.sift_second_layer(IA, sift_args=cfg)
+            return S.sift_second_layer(IA, sift_func=cfg.get_func())
+        freqs = np.array(MASK_FREQS2)
         if route == 'keyword':
-            r = f(x, **base, **given(u))
-        elif route == 'config':
-            r = f(x, **apply_config(S, variant, base, u))
-        else:
-            r = apply_config(S, variant, base, u).get_func()(x)
-        return r[0] if isinstance(r, tuple) else r
-    IA = first_layer(sig)
-    if variant == 'sift_second_layer':
-        if route == 'keyword':
-            return S.sift_second_layer(IA, sift_args=dict(base, **given(u)))
+            return S.mask_sift_second_layer(IA, freqs, sift_args=dict(base, **given(u)))
+        # there is no get_func for this entry point: the configuration is handed over as a dictionary, directly or
+        # frozen into a functools.partial
+        args = dict(cfg)
         if route == 'config':
-            return S.sift_second_layer(IA, sift_args=apply_config(S, 'sift', base, u))
-        return S.sift_second_layer(IA, sift_func=apply_config(S, 'sift', base, u).get_func())
-    freqs = np.array(MASK_FREQS2)
-    if route == 'keyword':
-        return S.mask_sift_second_layer(IA, freqs, sift_args=dict(base, **given(u)))
-    # there is no get_func for this entry point: the configuration is handed over as a dictionary, directly or
-    # frozen into a functools.partial
-    args = dict(apply_config(S, 'mask_sift', base, u))
-    if route == 'config':
-        return S.mask_sift_second_layer(IA, freqs, sift_args=args)
-    return functools.partial(S.mask_sift_second_layer, sift_args=args)(IA, freqs)
+            return S.mask_sift_second_layer(IA, freqs, sift_args=args)
+        return functools.partial(S.mask_sift_second_layer, sift_args=args)(IA, freqs)
+    finally:
+        del keep
 
 
 # --------------------------------------------------------------------------- the same decomposition assembled by hand
@@ -487,7 +553,8 @@ def run_case(case, workdir):
         _T['dir'] = d
         try:
             with common.time_limit(case.get('timeout', 30)):
-                out = call_variant(S, case['variant'], case['route'], case['nproc'], u, case['signal'])
+                out = call_variant(S, case['variant'], case['route'], case['nproc'], u, case['signal'],
+                                   case.get('style', 'assign'), case.get('decoys', True))
         except common.Timeout:
             res['status'] = 'timeout'
         except Exception as e:  # noqa
@@ -555,16 +622,24 @@ def oracle(case, res):
     by_stage = {}
     for code, kw, inp, inw in res['records']:
         by_stage.setdefault('GEEEPPP'[code - 1] if 1 <= code <= 7 else '?', []).append((code, dict(kw[1]), inp, inw))
+    decoy = decoy_options({b: build(case['u'][b]) for b in BUNDLES}) if case.get('decoys', True) else {}
     for b in BUNDLES:
         st = STAGE_OF_BUNDLE[b]
         for k, v in (case['u'][b][1] if case['u'][b][0] == 'D' else []):
             for code, kw, inp, inw in by_stage.get(st, []):
                 if kw.get(k) != v:
+                    stolen = b in decoy and k in decoy[b] and kw.get(k) == canon(decoy[b][k])
                     for where in ([False] if inp else []) + ([True] if inw else []):
-                        fails.append((site_of(case, code, kw, where), '%s[%r] supplied to %s by the %s route did not reach %s%s'
-                                      % (b, k, case['variant'], case['route'], SNAME[code],
-                                         ' in a worker process' if where else ' in the calling process'),
-                                      plain(kw.get(k, ['s', '<absent>'])), plain(v)))
+                        if stolen:
+                            fails.append(('emd/sift.py:get_config', '%s[%r] set on one SiftConfig (%s route, %s) was replaced at %s by the '
+                                          'value set afterwards on a DIFFERENT SiftConfig object that was never run'
+                                          % (b, k, case['route'], case['variant'], SNAME[code]),
+                                          plain(kw.get(k)), plain(v)))
+                        else:
+                            fails.append((site_of(case, code, kw, where), '%s[%r] supplied to %s by the %s route did not reach %s%s'
+                                          % (b, k, case['variant'], case['route'], SNAME[code],
+                                             ' in a worker process' if where else ' in the calling process'),
+                                          plain(kw.get(k, ['s', '<absent>'])), plain(v)))
     if res['pipeline'] == 'differ':
         fails.append(('output:' + case['variant'], 'result differs from the same sift assembled by hand from get_next_imf with the same options',
                       res['maxdiff'], 0.0))
@@ -617,16 +692,28 @@ def make_cases(ctx):
     for sig in signals:
         for v in VARIANTS:
             for oname, u in opts:
+                nested = any(isinstance(x, dict) for b in BUNDLES for x in (u[b] or {}).values())
                 for r in ROUTES:
-                    for npc in (procs if v in POOLED else (1,)):
-                        cases.append(dict(id='%d' % len(cases), variant=v, route=r, nproc=npc, signal=sig, oname=oname,
-                                          u={b: canon(u[b]) for b in BUNDLES}))
+                    # a dictionary-valued option can be put into a SiftConfig whole or entry by entry: both are run
+                    for style in (('assign', 'path') if nested and r != 'keyword' else ('assign',)):
+                        for npc in (procs if v in POOLED else (1,)):
+                            cases.append(dict(id='%d' % len(cases), variant=v, route=r, nproc=npc, signal=sig, oname=oname,
+                                              style=style, decoys=True, u={b: canon(u[b]) for b in BUNDLES}))
     return cases, dict(variants=VARIANTS, option_cases=[o for o, _ in opts], routes=ROUTES, nprocesses=list(procs),
                        signals=signals, samples=N)
 
 
 def slim(case):
-    return {k: case[k] for k in ('variant', 'route', 'nproc', 'signal', 'oname', 'u')}
+    out = {k: case[k] for k in ('variant', 'route', 'nproc', 'signal', 'oname', 'u', 'style', 'decoys') if k in case}
+    u = {b: build(case['u'][b]) for b in BUNDLES}
+    name = {'sift_second_layer': 'sift', 'mask_sift_second_layer': 'mask_sift'}.get(case['variant'], case['variant'])
+    out['sequence'] = ['D0 = get_config(%r); set every option of D0 to %r (np.pad dicts entry by entry)' % (name, decoy_options(u)),
+                       'A = get_config(%r); set on A: %r (dictionary options: %s)'
+                       % (name, {b: u[b] for b in BUNDLES if u[b]}, 'entry by entry through bundle/option/key paths'
+                          if case.get('style') == 'path' else 'assigned whole'),
+                       'D1 = get_config(%r), D2 = get_config(%r); configured like D0' % (name, other_variant(name)),
+                       'run %s with A by the %s route (keyword route: the dictionaries directly, A unused)' % (case['variant'], case['route'])]
+    return out
 
 
 def run(ctx):
@@ -634,7 +721,9 @@ def run(ctx):
                 'option case (nothing, three empty dicts, one non-default value for each of stop_method, env_step_size, sd_thresh, '
                 'rilling_thresh, max_iters, energy_thresh, interp_method, pad_width, parabolic_extrema, loc_pad_opts, mag_pad_opts, and '
                 'all of them at once; thorough adds pchip and the fixed stop rule) x route (keyword dicts, SiftConfig unpacking, get_func '
-                'partial) x nprocesses, on %d-sample signals.  A case is the real call under recording wrappers; it is non-trivial when '
+                'partial; np.pad dictionaries assigned whole and edited entry by entry) x nprocesses, on %d-sample signals; before and after the '
+                'configuration under test is set up, decoy SiftConfigs (same and another variant) are given different values for every '
+                'option and never run.  A case is the real call under recording wrappers; it is non-trivial when '
                 'all five stage calls (get_next_imf, interp_envelope upper/lower, get_padded_extrema peaks/troughs) were recorded and, for '
                 'the pooled variants, at least one of them inside a worker process.' % N)
     ctx.proof()
@@ -654,7 +743,7 @@ def run(ctx):
     viol, breaks = {}, []
     for c in cases:
         r = results[c['id']]
-        key = (c['variant'], c['route'], c['nproc'], c['oname'], c['signal'])
+        key = (c['variant'], c['route'], c['nproc'], c['oname'], c['signal'], c.get('style'))
         if r['status'] == 'timeout':
             ctx.discarded += 1
             ctx.notes.append('timeout (discarded): %s' % (key,))
@@ -712,7 +801,8 @@ def run(ctx):
 
 
 def replay(rec):
-    """Re-run the recorded (variant, options, route, nprocesses, signal): True iff the same site still loses the option."""
+    """Re-run the recorded sequence (decoy configurations, configuration style, variant, options, route, nprocesses, signal):
+    True iff the same site still loses the option."""
     import tempfile
     c = dict(rec['input'])
     c['id'] = 'replay'
